@@ -110,7 +110,8 @@ def gen_coarse_graph(R, tier):
                 g.add_edge(a, b, order=R.choice(orders))
         if g.number_of_edges() > n - 1:
             feats.add('coarse:ring')
-        names = {i: R.choice(['A', 'B', 'SC1', 'TC5']) for i in range(n)}
+        npool = R.choice([['A'], ['A', 'B'], ['A', 'B', 'SC1', 'TC5'], ['A', 'B', 'SC1', 'TC5']])     # (few names: runs of identical beads)
+        names = {i: R.choice(npool) for i in range(n)}
         toks = {}
         has = False
         for i in range(n):
@@ -132,6 +133,13 @@ def gen_long_coarse(R, tier):
     toks = []
     for i in range(n):
         toks.append((R.choice(sym) if i else '') + '[#%s]' % R.choice(pool))
+    if R.chance(0.5):
+        # the first bead (node 0, where the writer starts) lies inside the chain: one arm is written as a branch
+        k = R.randint(300, n - 300)
+        i1 = toks[1].index('[')      # the bond symbol of a branch is written in front of its parenthesis
+        body = toks[0] + toks[1][:i1] + '(' + toks[1][i1:] + ''.join(toks[2:k]) + ')' + ''.join(toks[k:])
+        return dict(input='{#G0=[$]' + body + R.choice(['[$]', '[>a]']) + '}', mode='fragments', all_atom=False,
+                    features=['coarse', 'coarse:long_chain_1000+', 'coarse:long_chain_starts_inside'])
     return dict(input='{#G0=[$]' + ''.join(toks) + R.choice(['[$]', '[>a]', '=[$x]']) + '}', mode='fragments', all_atom=False,
                 features=['coarse', 'coarse:long_chain_1000+'])
 
@@ -173,7 +181,27 @@ def gen(R, tier):
         return gen_atomistic(R, tier)
     if k == 'coarse':
         return gen_coarse(R, tier)
-    case = resgen.gen_resolvable(R, tier, kinds=('cut', 'levels'))
+    if R.chance(0.12):
+        # cyclic (co)polymers: runs of identical residues, ring bonds of any order anywhere in the base graph
+        import networkx as nx
+        n = R.randint(3, 9)
+        g = nx.Graph()
+        g.add_nodes_from(range(n))
+        orders = R.choice([(1,), (1, 1, 2), (1, 2, 3, 0)])
+        for i in range(1, n):
+            g.add_edge(i - 1 if R.chance(0.8) else R.randrange(i), i, order=1 if R.chance(0.7) else R.choice(orders))
+        for _ in range(R.choice([1, 1, 2])):
+            a, b = R.sample(range(n), 2)
+            if not g.has_edge(a, b):
+                g.add_edge(a, b, order=R.choice([1, 2, 2, 3, 0]))
+        pool = R.choice([['A'], ['A', 'A', 'B'], ['PEO', 'PPO']])
+        names = {i: R.choice(pool) for i in range(n)}
+        text = molgen.write_base(R, g, names)
+        frs = ','.join('#%s=[$]CC[$][$][$]' % nm for nm in sorted(set(names.values())))
+        return dict(input=text + '.{' + frs + '}', mode='string', kind='fragset', last_all_atom=True, legacy=True, nlevels=1,
+                    features=['string', 'cyclic_copolymer_base_graph'])
+    # (ambiguous fragment sets over grammar base graphs: names repeat, ring bonds and bond orders in the base graph)
+    case = resgen.gen_resolvable(R, tier, kinds=('cut', 'levels', 'cut', 'levels', 'fragset'))
     if case is None:
         return None
     case['mode'] = 'string'
@@ -240,6 +268,21 @@ def oracle(case):
     aa = case['last_all_atom']
     r = sut(lambda: MoleculeResolver.from_string(case['input'], last_all_atom=aa, legacy=case['legacy']))
     out = sut(write_cgsmiles, r.molecule, r.fragment_dicts, last_all_atom=aa)
+    # the base-graph block of the written string reads back as the base graph of the source
+    from cgsmiles import read_cgsmiles
+    from ..invariants import iso
+    base_src = sut(read_cgsmiles, case['input'][:case['input'].index('}') + 1])
+    try:
+        base_out = sut(read_cgsmiles, out[:out.index('}') + 1])
+    except Exception as e:
+        if hasattr(e, 'sig'):
+            e.sig = 'written-string-not-resolvable:' + e.sig
+            e.msg = 'written %s :: %s' % (out, e.msg)
+        raise
+    expect(iso(base_src, base_out, lambda a, b: a.get('fragname') == b.get('fragname'), lambda a, b: a.get('order') == b.get('order')),
+           'writer:base-graph-differs', lambda: 'source %s written as %s' % (case['input'], out))
+    if case['kind'] == 'fragset':
+        return      # (an ambiguous set may legitimately pair descriptors differently after re-ordering)
     cg, fine = sut(r.resolve_all)
     try:
         cg2, fine2 = sut(lambda: MoleculeResolver.from_string(out, last_all_atom=aa, legacy=case['legacy']).resolve_all())
